@@ -355,6 +355,19 @@ impl Optimizer {
                         let refs_left = pred_cols.iter().any(|&c| c < left_cols);
                         let refs_right = pred_cols.iter().any(|&c| c >= left_cols);
 
+                        let right_predicate = if refs_right && !refs_left {
+                            Self::right_side_predicate(
+                                &predicate,
+                                &pred_cols,
+                                left_cols,
+                                right.output_schema().len(),
+                                &right_keys,
+                                output_schema.len(),
+                            )
+                        } else {
+                            None
+                        };
+
                         if refs_left && !refs_right {
                             // Predicate only references left side - push down to left
                             IRNode::Join {
@@ -367,11 +380,9 @@ impl Optimizer {
                                 right_keys,
                                 output_schema,
                             }
-                        } else if refs_right && !refs_left {
+                        } else if let Some(adjusted_predicate) = right_predicate {
                             // Predicate only references right side - push down to right
-                            // Need to adjust column indices
-                            let adjusted_predicate =
-                                Self::adjust_predicate_columns(&predicate, -(left_cols as i32));
+                            // with its columns translated to the right input's own columns
                             IRNode::Join {
                                 left,
                                 right: Box::new(IRNode::Filter {
@@ -521,7 +532,42 @@ impl Optimizer {
         }
     }
 
+    /// Translate a predicate over join-output columns that all lie right of the
+    /// left input into a predicate over the right input's own columns.
+    ///
+    /// A keyed join emits every left column followed by the right input's
+    /// *non-key* columns, so output column `left_cols + k` is the k-th non-key
+    /// column of the right input (not column `k`). When the declared output
+    /// keeps all right columns the mapping is the plain offset.
+    /// Returns None when some referenced column has no counterpart.
+    fn right_side_predicate(
+        predicate: &Predicate,
+        pred_cols: &[usize],
+        left_cols: usize,
+        right_cols: usize,
+        right_keys: &[usize],
+        output_cols: usize,
+    ) -> Option<Predicate> {
+        let emitted: Vec<usize> = if output_cols == left_cols + right_cols {
+            (0..right_cols).collect()
+        } else {
+            (0..right_cols)
+                .filter(|i| !right_keys.contains(i))
+                .collect()
+        };
+        // projection[right column] = join-output column it is emitted as
+        let mut projection = vec![usize::MAX; right_cols];
+        for (k, &right_col) in emitted.iter().enumerate() {
+            projection[right_col] = left_cols + k;
+        }
+        if !pred_cols.iter().all(|c| projection.contains(c)) {
+            return None;
+        }
+        predicate.adjust_for_projection(&projection)
+    }
+
     /// Adjust column indices in a predicate by an offset
+    #[cfg(test)]
     fn adjust_predicate_columns(predicate: &Predicate, offset: i32) -> Predicate {
         let adjust = |col: usize| -> usize { ((col as i32) + offset) as usize };
 
